@@ -13,13 +13,13 @@ CLAIMED = {
  "C06": ("tlc-trace", "TLC trace validation: reported repair set against the exhaustive minimum-cost reference search CPCTPlus.RefRepairs; ranking laws; bounded model MC_CPCT.tla (buckets, node merging, first-success cut-off and sweep, unfolding, ranking = RefRepairs for every erroneous input)", "5 C06"),
  "C07": ("tlc-trace", "TLC trace validation of the error-list / outcome laws on long erroneous inputs; non-returning parses observed through a killed child process; bounded model MC_Recover.tla (the parse loop with recovery as a state machine, every input up to length L, any minimum-cost repair applied)", "5 C07"),
  "C08": ("tlc-trace", "TLC trace validation: reduce callbacks (order, arguments, span, parameter) against LRParse.tla; generic-tree mode against action mode", "5 C08"),
- "C09": ("tlc-lexer", "TLC bounded model of Lexer.tla over every small definition x every match environment + trace validation of lrlex runs with the regex engine as environment", "5 C09"),
- "C10": ("tlc-src", "TLC evaluation of YaccSrc.GrammarOf(document) against every accessor of the parsed grammar, over seeded-random documents in several renderings (layout, comments, quoting, declaration order; Original / Grmtools / Eco); second route from the rendered text alone: YaccParse.tla (text -> AST) and AstGrammar.tla (AST -> grammar object) predicted exactly (TraceYaccParse.tla)", "5 C10"),
+ "C09": ("tlc-lexer", "TLC bounded model of Lexer.tla over every small definition x every match environment + trace validation of lrlex runs with the regex engine as environment (under the flags the document asks for: a family of flag documents, section and builder)", "5 C09"),
+ "C10": ("tlc-src", "TLC evaluation of YaccSrc.GrammarOf(document) against every accessor of the parsed grammar, over seeded-random documents in several renderings (layout, comments, quoting, declaration order; Original / Grmtools / Eco); second route from the rendered text alone: YaccParse.tla (text -> AST) and AstGrammar.tla (AST -> grammar object) predicted exactly (TraceYaccParse.tla); grammar objects at the edge of a narrow index type (TraceWidth.tla, PROP=C10)", "5 C10"),
  "C11": ("tlc-src", "TLC evaluation of LexSrc.LexerDefOf(document) (rules, start states, targets, Unescape, spans) and of lexing under the flags the document puts in force; every CTLexerBuilder flag setter against the run-time lexer (TraceCTRT.tla); MarkMap.tla (header/settings map and merge operator: bounded model of the merge laws + trace validation of random operation sequences)", "5 C11"),
  "C12": ("tlc-src", "TLC evaluation of the outcome contract (Totality.tla) on every outcome of the section / Yacc / lex parsers over mutated specifications, each run in a killable child process; the three parsers transcribed (Header.tla, LexParse.tla, YaccParse.tla): trace specifications predict every recorded outcome exactly (AST / lexer definition / section, all spans, errors in order), bounded models check termination and the contract on every short text; the rendering of every reported error and warning by the diagnostics formatter predicted exactly (Diagnostics.tla / TraceDiag)", "5 C12"),
- "C13": ("tlc-ctrt", "translation validation: generated modules compiled by rustc and run next to the run-time pipeline; TLC compares lexemes, recorded action values / trees and errors with repair sets (TraceCTRT.tla)", "5 C13"),
- "C14": ("tlc-pipe", "TLC trace validation of the stutter law Pipeline.Reconstitute on full observations before / after wincode serialise + _reconstitute, all widths and both encodings", "5 C14"),
- "C15": ("tlc-pipe", "TLC: OnceInit.tla (all interleavings of first use; safety for any number of threads by TLAPS, OnceInitProof.tla) + trace validation of Pipeline.BuildDeterministic over K independent processes, generated parser / lexer / token-map modules (token maps predicted exactly by TokenMap.tla), and 8-thread first use of compiled generated parsers", "5 C15"),
+ "C13": ("tlc-ctrt", "translation validation: generated modules compiled by rustc and run next to the run-time pipeline; TLC compares lexemes, recorded action values / trees and errors with repair sets (TraceCTRT.tla); the module a build over a used output directory leaves in place = the clean build's (CTBuild.tla / TraceCT.tla, PROP=C13)", "5 C13"),
+ "C14": ("tlc-pipe", "TLC trace validation of the stutter law Pipeline.Reconstitute on full observations before / after wincode serialise + _reconstitute, all widths and both encodings; compiled generated parsers (both formats) reconstituting at start-up against the run-time parser (TraceCTRT.tla); builds over a used output directory (TraceCT.tla, PROP=C14)", "5 C14"),
+ "C15": ("tlc-pipe", "TLC: OnceInit.tla (all interleavings of first use; safety for any number of threads by TLAPS, OnceInitProof.tla) + trace validation of Pipeline.BuildDeterministic over K independent processes, generated parser / lexer / token-map modules (token maps predicted exactly by TokenMap.tla), 8-thread first use of compiled generated parsers, and builds over a used output directory against clean builds (TraceCT.tla, PROP=C15)", "5 C15"),
  "C16": ("tlc-trace", "TLC evaluation of view / graph consistency on every state x token x rule of the dumped graph and table", "5 C16"),
  "C17": ("tlc-trace", "TLC comparison of FIRST / FOLLOW / nullable / path / cost queries with declarative least fixed points; rule_min_costs transcribed to characterise non-termination", "5 C17"),
  "C18": ("tlc-ctbuild", "TLC bounded model of CTBuild.tla (all histories to a depth; the parser builder's part for histories of any length by TLAPS, CTBuildProof.tla) + trace validation of build histories run on the real builders, one process per build, against clean builds", "5 C18"),
